@@ -224,6 +224,22 @@ pub fn run(p: &[String]) -> Vec<String> {
             };
             vec![hex(&dump("A")), hex(&dump("B"))]
         }
+        "from_other_sheet" => {
+            // op axis p n c r
+            let mut book = umya_spreadsheet::new_file_empty_worksheet();
+            book.new_sheet("A").unwrap();
+            let ws = book.new_sheet("B").unwrap();
+            ws.get_cell_mut((u(&p[5]), u(&p[6]))).set_value_bool(true);
+            let (op, axis, pp, n) = (unhex(&p[1]), unhex(&p[2]), u(&p[3]), u(&p[4]));
+            match (op.as_str(), axis.as_str()) {
+                ("insert", "row") => ws.insert_new_row_from_other_sheet("A", &pp, &n),
+                ("insert", "col") => ws.insert_new_column_by_index_from_other_sheet("A", &pp, &n),
+                ("remove", "row") => ws.remove_row_from_other_sheet("A", &pp, &n),
+                ("remove", "col") => ws.remove_column_by_index_from_other_sheet("A", &pp, &n),
+                _ => panic!("bad op"),
+            }
+            vec![hex(&dump_cells(ws).split('=').next().unwrap_or("").to_string())]
+        }
         // ---- C07 scalar
         "adj_insert" => vec![va::adjustment_insert_coordinate(&u(&p[1]), &u(&p[2]), &u(&p[3])).to_string()],
         "adj_remove" => vec![va::adjustment_remove_coordinate(&u(&p[1]), &u(&p[2]), &u(&p[3])).to_string()],
